@@ -525,6 +525,15 @@ var witnessTree = Tree{
 	{Path: []string{"ldir"}, Kind: "l", Tgt: []string{"dir"}}, {Path: []string{"lfile"}, Kind: "l", Tgt: []string{"a"}},
 	{Path: []string{"broken"}, Kind: "l", Tgt: []string{"nonexistent"}},
 	{Path: []string{"dir", "dangling"}, Kind: "l", Tgt: []string{"dir", "nonexistent"}},
+	{Path: []string{"dir", "lsub"}, Kind: "l", Tgt: []string{"dir", "sub"}},
+	// names with a backslash, and the same names without it
+	{Path: []string{"a\\b"}, Kind: "f"}, {Path: []string{"a\\bc"}, Kind: "f"}, {Path: []string{"ab"}, Kind: "f"}, {Path: []string{"abc"}, Kind: "f"},
+	{Path: []string{"x\\"}, Kind: "f"},
+	// sibling directories in prefix relation, next character below '/'
+	{Path: []string{"k"}, Kind: "d"}, {Path: []string{"k", "f"}, Kind: "f"},
+	{Path: []string{"k.d"}, Kind: "d"}, {Path: []string{"k.d", "f"}, Kind: "f"},
+	{Path: []string{"k-b"}, Kind: "d"}, {Path: []string{"k-b", "f"}, Kind: "f"},
+	{Path: []string{"k b"}, Kind: "d"}, {Path: []string{"k b", "f"}, Kind: "f"},
 }
 
 var witnesses = []struct{ Class, Script string }{
@@ -535,6 +544,13 @@ var witnesses = []struct{ Class, Script string }{
 	{"globstar_repeated", "shopt -s globstar\nprintf '%s\\n' **/**"},
 	{"double_slash_kept", "printf '%s\\n' dir//*"},
 	{"", "shopt -s -o noglob\nprintf '%s\\n' a*\nshopt -u -o noglob\nprintf '%s\\n' a*\nset -f\nshopt -u -o noglob\nprintf '%s\\n' a*"},
+	// pinned regression inputs (ordinary inputs; one or two per mechanism that a seeded change once broke)
+	{"", "shopt -s globstar\nprintf '%s\\n' dir/**/"},
+	{"", "printf '%s\\n' 'a\\b'* *'\\' \"a\\\\b\"?"},
+	{"", "printf '%s\\n' \"b*\"* 'y['* \"what?\"*.txt 'back\\slash'*"},
+	{"", "set -f\nshopt -s nullglob\nprintf '%s\\n' *.x end"},
+	{"", "set -f\nshopt -s globstar\nprintf '%s\\n' dir/** none/**/"},
+	{"", "printf '%s\\n' k*/f k*/ ./k*/?"},
 	{"globstar_symlink_after_prefix", "shopt -s globstar\nprintf '%s\\n' ./**/x"},
 	{"literal_component_dangling_symlink", "printf '%s\\n' */dangling"},
 	// repaired by fix: commits
@@ -580,6 +596,12 @@ func main() {
 	case "gen":
 		r := hx.Rand(o.Seed, 19)
 		n := 0
+		// pinned regression inputs of the modelled fragment, on the witness tree, under every option set of the model
+		for _, w := range []string{"k*/f", "k*/", "./k*/?", "**/", "dir/**/", "**", "**/x", "ldir/**", "?x", "*.*", "*/x", "*/dangling", "nomatch*"} {
+			for m := 0; m < 16; m++ {
+				hx.Emit(observe(witnessTree, w, Opts{Dot: m&1 != 0, Null: m&2 != 0, Star: m&4 != 0, NoGlob: m&8 != 0}))
+			}
+		}
 		for n < o.N {
 			t := genTree(r, false)
 			for k := 0; k < 25 && n < o.N; k++ {
